@@ -32,7 +32,9 @@ Has(e, f) == f \in DOMAIN e
 
 tvars == <<vars, l, viol, tv>>
 
-TvInit == [robs |-> <<>>,         \* reader -> observation at open
+TvInit == [absq |-> <<{}>>,        \* memo of the abstract index: absq[k+1] = AbsPrefix(k), extended by AbsStep at every IntroBatch
+                                  \* (Trace.cfg substitutes MemoAbsPrefix for AbsPrefix; re-checked against the definition at CloseReturn)
+           robs |-> <<>>,         \* reader -> observation at open
            run |-> 0,             \* number of the run (Reset events)
            pending |-> {},        \* files whose Persist is in flight: <<kind, id>>
            mem |-> FALSE,         \* in-memory directory (no durability clauses)
@@ -81,11 +83,10 @@ UpdOnly(id) == \A u \in DOMAIN batchOf :
 TraceUpdateUnique == Up => \A id \in Ids : UpdOnly(id) => Cardinality({d \in Vis(root.ents) : d[1] = id}) <= 1
 TraceHandles == \A h \in DOMAIN inst : inst[h].closes <= 1
 
-StateClauses ==
-  {c \in {"C01_RootIsAbstract", "C01_SegIdsUnique", "C01_UpdateUnique", "C02_AckedDurable",
-          "C03_DiskIsPrefix", "C03_EveryLoadableIsPrefix", "C03_Recoverable", "C04_NoUseAfterClose",
-          "C05_RealTime", "C05_ReturnedApplied", "C11_Retained", "C11_AtLeastN", "C11_RootFiles",
-          "C11_OpenHandlesHaveFiles", "C11_HandlesClosedOnce"} :
+\* The state clauses, grouped by the variables they depend on, so that an event only
+\* re-evaluates the groups it can affect (evaluating everything after every event is
+\* equivalent and 10-30 times slower on long histories).
+ClauseFails(c) ==
      CASE c = "C01_RootIsAbstract" -> ~C01_RootIsAbstract
        [] c = "C01_SegIdsUnique" -> ~C01_SegIdsUnique
        [] c = "C01_UpdateUnique" -> ~TraceUpdateUnique
@@ -101,11 +102,29 @@ StateClauses ==
        [] c = "C11_RootFiles" -> ~tv.mem /\ ~C11_RootFiles
        [] c = "C11_OpenHandlesHaveFiles" -> ~tv.mem /\ ~tv.free /\ ~C11_OpenHandlesHaveFiles
        [] c = "C11_HandlesClosedOnce" -> ~TraceHandles
-       [] OTHER -> FALSE}
+       [] OTHER -> FALSE
+GRoot == {"C01_RootIsAbstract", "C01_SegIdsUnique", "C01_UpdateUnique", "C05_RealTime", "C05_ReturnedApplied", "C11_RootFiles"}   \* root, applied, batchOf
+GDisk == {"C02_AckedDurable", "C03_DiskIsPrefix", "C03_EveryLoadableIsPrefix", "C03_Recoverable", "C11_Retained", "C11_AtLeastN",
+          "C11_RootFiles", "C11_OpenHandlesHaveFiles"}                                                                           \* files, policy, epochLen
+GAck == {"C02_AckedDurable", "C05_ReturnedApplied"}                                                                              \* acked, cbAcked
+GHandle == {"C04_NoUseAfterClose", "C11_OpenHandlesHaveFiles", "C11_HandlesClosedOnce"}                                           \* handles, readers
+GAll == GRoot \cup GDisk \cup GAck \cup GHandle
+Failing(G) == {c \in G : ClauseFails(c)}
+StateClauses == Failing(GAll)
 
 \* every event: advance, evaluate the state clauses in the new state
 Step(name) == l <= N /\ Ev.ev = name /\ l' = l + 1
-Judge(evClauses) == viol' = (AddViol(evClauses \cup StateClauses'))
+\* which groups an event can affect (anything not listed: all of them)
+GroupOf(e) ==
+  CASE e \in {"Invoke", "RootObs", "ReaderObs", "PResult", "Reopened", "Stuck", "SecondOpen", "Recovered"} -> {}
+    [] e \in {"Return", "Callback"} -> GAck
+    [] e \in {"PersistBegin", "PersistEnd", "Commit"} -> GDisk
+    [] e \in {"LoadEnd", "HandleClose", "ReaderOpen"} -> GHandle
+    [] e = "RemoveEnd" -> GDisk \cup GHandle
+    [] OTHER -> GAll
+Judge(evClauses) == viol' = (AddViol(evClauses \cup {c \in GroupOf(Ev.ev) : ClauseFails(c)'}))
+
+MemoAbsPrefix(k) == tv.absq[k + 1]
 
 Ghosts == <<applied, epochLen, acked, cbAcked, batchOf, retBefore, errd>>
 Unused == <<nextEpoch, nextSeg, nextUid, nextH, cl, pend, cbs, ps, mg, snaps>>
@@ -195,7 +214,8 @@ TOpenReturn ==
              /\ life' = LifeInit
      ELSE /\ UNCHANGED <<applied, epochLen>>
           /\ life' = [life EXCEPT !.up = FALSE]
-  /\ tv' = [tv EXCEPT !.opened = (Ev.err = "")]
+  /\ tv' = [tv EXCEPT !.opened = (Ev.err = ""),
+                      !.absq = IF Ev.err = "" THEN SubSeq(@, 1, (IF RecK = {} THEN Len(applied) ELSE Max(RecK)) + 1) ELSE @]
   /\ UNCHANGED <<root, fsnp, fseg, pol, inst, rd, acked, cbAcked, batchOf, retBefore, errd, cnt>>
   /\ UNCHANGED Unused
   /\ Judge(IF Ev.err = ""
@@ -225,7 +245,8 @@ TIntroBatch ==
   /\ root' = [epoch |-> Ev.epoch, ents |-> EntsOf(Ev.ents)]
   /\ applied' = Append(applied, Ev.uid)
   /\ epochLen' = Put(epochLen, Ev.epoch, Len(applied) + 1)
-  /\ tv' = [tv EXCEPT !.segdocs = WithDocs(@, EntsOf(Ev.ents))]
+  /\ tv' = [tv EXCEPT !.segdocs = WithDocs(@, EntsOf(Ev.ents)),
+                      !.absq = Append(@, IF Ev.uid \in DOMAIN batchOf THEN AbsStep(@[Len(@)], Ev.uid) ELSE @[Len(@)])]
   /\ UNCHANGED <<fsnp, fseg, pol, inst, rd, life, acked, cbAcked, batchOf, retBefore, errd, cnt>>
   /\ UNCHANGED Unused
   /\ Judge((IF Ev.uid \notin DOMAIN batchOf THEN {"C05_introduced_before_invoked"} ELSE {})
@@ -362,7 +383,7 @@ TReaderOpen ==
   /\ rd' = [rd EXCEPT ![Ev.r] = [st |-> "open", epoch |-> root.epoch, ents |-> root.ents, n |-> Len(applied)]]
   /\ tv' = [tv EXCEPT !.robs = Put(tv.robs, Ev.r, Ev.obs)]
   /\ UNCHANGED <<root, fsnp, fseg, pol, inst, life, cnt>> /\ UNCHANGED Ghosts /\ UNCHANGED Unused
-  /\ Judge((IF DocSet(Ev.obs.docs) # Abs(applied) \/ Cardinality(Abs(applied)) # Ev.obs.count
+  /\ Judge((IF DocSet(Ev.obs.docs) # AbsPrefix(Len(applied)) \/ Cardinality(AbsPrefix(Len(applied))) # Ev.obs.count
             THEN {"C01_reader_differs_from_abstract_index"} ELSE {})
            \cup (IF ~ObsOK(Ev.obs) THEN {"C01_reader_views_disagree"} ELSE {}))
 
@@ -370,7 +391,7 @@ TReaderOpen ==
 TRootObs ==
   /\ Step("RootObs")
   /\ UNCHANGED <<root, fsnp, fseg, pol, inst, rd, life, cnt, tv>> /\ UNCHANGED Ghosts /\ UNCHANGED Unused
-  /\ Judge((IF DocSet(Ev.obs.docs) # Abs(applied) \/ Cardinality(Abs(applied)) # Ev.obs.count
+  /\ Judge((IF DocSet(Ev.obs.docs) # AbsPrefix(Len(applied)) \/ Cardinality(AbsPrefix(Len(applied))) # Ev.obs.count
             THEN {"C01_reader_differs_from_abstract_index"} ELSE {})
            \cup (IF ~ObsOK(Ev.obs) THEN {"C01_reader_views_disagree"} ELSE {}))
 
@@ -425,7 +446,8 @@ TCloseReturn ==
            \* rounds are parked and must be delivered by the next successful round)
            \cup (IF ~tv.mem /\ \E u \in tv.cbwant : Durable(u) /\ u \notin cbAcked
                  THEN {"C14_callback_of_durable_batch_never_invoked"} ELSE {})
-           \cup (IF ~tv.mem /\ ~(\A u \in acked \cup cbAcked : Durable(u)) THEN {"C15_close_lost_acked"} ELSE {}))
+           \cup (IF ~tv.mem /\ ~(\A u \in acked \cup cbAcked : Durable(u)) THEN {"C15_close_lost_acked"} ELSE {})
+           \cup (IF Len(tv.absq) # Len(applied) + 1 \/ tv.absq[Len(tv.absq)] # Abs(applied) THEN {"DIV_absq_memo"} ELSE {}))
 
 \* a reopen immediately after Close (lock must be free; content covers everything acknowledged)
 TReopened ==
